@@ -9,7 +9,7 @@
    DESIGN §3; until then the unboundedness of this property rests on the correspondence). *)
 From stdpp Require Import gmap.
 From Coq Require Import NArith.
-From BV Require Import Base Heap HeapLaws.
+From BV Require Import Base Heap HeapLaws HeapWF HeapWFOps HeapWFMain.
 Local Open Scope N_scope.
 
 Theorem C02_free_is_layout_exact_and_once_partial : forall k sz s e s' e', free_buf k sz s e = OK tt s' e' ->
@@ -29,7 +29,24 @@ Example C02_double_free_is_ub :
   /\ match free_buf 2 3 s0 [] with UB _ => True | _ => False end.
 Proof. vm_compute. split; exact I. Qed.
 
+(* THE GLOBAL INVARIANT (HeapWF.v): typing of every handle against its storage, reference count = number of holders, one holder for a storage
+   without control block, none for a dead one, disjoint BytesMut windows, fresh identifiers.  PARTIAL: proved for the operations `covered`
+   (HeapWFMain.v: every constructor, the whole bytes.rs sharing family, drops, Vec conversions, the length-only BytesMut operations);
+   NOT YET for: the Bytes -> Vec / BytesMut conversions and the BytesMut split / reserve / extend / unsplit / freeze / advance operations
+   (those rest on the per-operation theorems above and on the correspondence engine).
+   For every history of covered, well-typed operations from the empty state, with every oracle: every state is WF and no step is UB. *)
+Theorem C02_invariant_preserved_partial : forall orc o s, covered o = true -> WF s -> op_ok s o ->
+  match run_op orc o s with OK _ s' _ => WF s' | PANIC s' _ => WF s' | UB _ => False end.
+Proof. exact wf_preserved. Qed.
+Theorem C02_no_ub_reachable_partial : forall orcs n s o why, reach orcs n s -> covered o = true -> op_ok s o -> run_op (orcs n) o s <> UB why.
+Proof. exact reach_no_ub. Qed.
+Example C02_invariant_nonvacuous : WF (hst0 false) /\ covered (OBSplitOff 1 3) = true.
+Proof. split; [apply wf0|reflexivity]. Qed.
+
 Print Assumptions C02_free_is_layout_exact_and_once_partial.
 Print Assumptions C02_read_inside_live_block_partial.
 Print Assumptions C02_write_inside_live_heap_block_partial.
 Print Assumptions C02_double_free_is_ub.
+Print Assumptions C02_invariant_preserved_partial.
+Print Assumptions C02_no_ub_reachable_partial.
+Print Assumptions C02_invariant_nonvacuous.
